@@ -12,11 +12,12 @@ import (
 
 func init() {
 	p := register("C25", func(r *Report) {
-		r.Explanation = "Every instruction that can panic in packages gateway, client, transactions, topics and util is enumerated; a green result means each has a named argument. (R1) unchecked type assertions: NewControlPacket(<const>).(*T) agrees with paho's code table; assertions on a transaction's stored step data are implied by the types all Proceed sites of that transaction family store - restricted to the Proceed sites of the state the assertion is guarded by when a state guard dominates it; assertions on sync.Map keys/values are implied by all Store sites of that map; (R2) index and slice operations: absent from the compiler's unproven-bounds list, or dominated by a length guard, or the inlined bytes.Buffer accessor; (R3) explicit panics only behind a failed comma-ok assertion that the type-flow shows cannot fail; (R4) pointer fields reset to nil after construction are never used by another goroutine without a common lock; (R5) plain maps shared between goroutines are only accessed under a common lock. Known finding: the sleep transaction's DISCONNECT pointer. Not decided: panics inside dependencies, stack or memory exhaustion."
+		r.Explanation = "Every instruction that can panic in packages gateway, client, transactions, topics and util is enumerated; a green result means each has a named argument. (R1) unchecked type assertions: NewControlPacket(<const>).(*T) agrees with paho's code table; assertions on a transaction's stored step data are implied by the types all Proceed sites of that transaction family store - restricted to the Proceed sites of the state the assertion is guarded by when a state guard dominates it; assertions on sync.Map keys/values are implied by all Store sites of that map; (R2) index and slice operations: absent from the compiler's unproven-bounds list, or dominated by a length guard, or the inlined bytes.Buffer accessor; (R3) explicit panics only behind a failed comma-ok assertion that the type-flow shows cannot fail; (R4) pointer fields reset to nil after construction are never used by another goroutine without a common lock; (R5) plain maps shared between goroutines are only accessed under a common lock; (R6) the packet pointer the client's PUBREL handler dereferences is stored on every path of the handler that creates the transaction, for every (stored transaction, DUP) combination (C17-R6, re-run here). Known finding: the sleep transaction's DISCONNECT pointer. Not decided: panics inside dependencies, stack or memory exhaustion."
 		r.floor("R1", 15)
 		r.floor("R2", 2)
 		r.floor("R3", 1)
 		r.floor("R5", 1)
+		r.floor("R6", 4)
 	}, checkC25)
 	p.post = postC25
 }
@@ -306,6 +307,12 @@ func (c *Ctx) phiRootedAt(v, obj ssa.Value) bool {
 }
 
 func checkC25(c *Ctx, r *Report) {
+	// R6: packet pointers a later handler dereferences are stored by the handler that creates the transaction, on every
+	// path: the client's PUBREL handler reads the PUBLISH stored by the QoS 2 PUBLISH handler (C17-R6 explores that
+	// handler per (stored transaction, DUP) and requires the store on every accepting path; re-run here - an
+	// unconditional dereference of a conditionally stored pointer is a nil dereference some packet sequence reaches)
+	importRulesF(c, r, "C17", map[string]string{"R6": "R6"}, nil)
+	c.checkStoresReceivedPublish(r, "R6", "a path of the handler that takes the QoS 2 PUBLISH does not store it: the transaction stays registered with a nil PUBLISH and the PUBREL handler dereferences it (topic lookup) - a PUBLISH(DUP=1) followed by PUBREL crashes the client's receive loop with a nil pointer dereference")
 	tf := c.newTypeFlow()
 	sites := map[string][]proceedSite{}
 	for _, rel := range []string{"gateway", "client"} {
